@@ -84,10 +84,16 @@ def main(tier, replay):
         "do_symmetry_90degrees_min_phi in force implies |dy-dx| <= 2e-3 mm. Known finding (key unequal-xy-voxel-sizes-within-guard-tolerance:"
         "xy-exchanging-symmetry): rows derived by an x/y exchanging operation for 0 < |dy-dx| <= 2e-3 mm may differ from the directly "
         "computed ones by more than the tolerance; such rows are classified by the input (voxel sizes, switch in force, operation "
-        "exchanges x and y), everything else stays strict.", extra)
+        "exchanges x and y), everything else stays strict. Found on the way (3): with square voxels but index ranges that differ in x and y "
+        "(two fixed geometries: 3 x 5 and 3 x 2 voxels, all 32 switch combinations, both matrix classes) the constructor leaves the x/y "
+        "exchanging symmetries on: rows of ProjMatrixByBinUsingInterpolation then leave the image / differ (known finding "
+        "interpolation-matrix:unequal-xy-index-ranges:xy-exchanging-symmetry, classified by matrix class, index ranges, switch in force and "
+        "operation; proposed repair C03-6); the y and x index ranges go to the model, a probe (op pimpl) tells it whether the "
+        "constructor it runs against has the index-range guard of the repair; ray tracing stays strict there.", extra)
     chk.assumptions += ["whether the view offset is zero, the data are TOF and the image origin is unshifted in x/y (the other inputs of the constructor's "
                         "switch logic) are evaluated by the harness with the constructor's own expressions and told to the model; the x/y voxel-size "
-                        "guard is evaluated by the model",
+                        "guard is evaluated by the model; whether the constructor also compares the x and y index ranges (proposed repair C03-6) is "
+                        "read off the implementation by a probe and told to the model",
                         "calculate_proj_matrix_elems_for_one_bin of both matrix classes (ray tracer, interpolation kernel, TOF kernel) is an uninterpreted function in Lean: "
                         "that the directly computed row equals the symmetry-derived one is checked by the C++ oracle (and, for the LOR geometry, by the theorems over R)",
                         "a geometry of the model is what set_up compares (projection data info, voxel size, origin, index range, library ==); "
